@@ -1,0 +1,255 @@
+//go:build verif
+// +build verif
+
+// Verification shim for property C16 (the driver's picture of the cluster). Add-only: thin exported
+// wrappers so that the harness module can construct HostInfo values, drive the unexported ring and
+// the session's refresh / node-event entry points, and read back ring, pool and host state.
+// Nothing here re-implements driver logic.
+
+package gocql
+
+import (
+	"fmt"
+	"net"
+	"sort"
+)
+
+// VerifC16Host is a plain-data view of the HostInfo fields that matter for the ring indexes,
+// HostInfo.update, isValidPeer and the refresh diff.
+type VerifC16Host struct {
+	ID        string
+	Peer      net.IP
+	Broadcast net.IP
+	Listen    net.IP
+	RPC       net.IP
+	Preferred net.IP
+	Connect   net.IP
+	Port      int
+	DC        string
+	Rack      string
+	Tokens    []string
+	Up        bool
+	Version   string // release_version, e.g. "3.11.4"; not part of the view read back
+}
+
+// VerifC16NewHost builds a HostInfo with exactly these fields.
+func VerifC16NewHost(v VerifC16Host) *HostInfo {
+	h := &HostInfo{
+		hostId:           v.ID,
+		peer:             v.Peer,
+		broadcastAddress: v.Broadcast,
+		listenAddress:    v.Listen,
+		rpcAddress:       v.RPC,
+		preferredIP:      v.Preferred,
+		connectAddress:   v.Connect,
+		port:             v.Port,
+		dataCenter:       v.DC,
+		rack:             v.Rack,
+		tokens:           v.Tokens,
+	}
+	if !v.Up {
+		h.state = NodeDown
+	}
+	if v.Version != "" {
+		h.version.Set(v.Version)
+	}
+	return h
+}
+
+// VerifC16View reads the fields back (under the host's lock).
+func VerifC16View(h *HostInfo) VerifC16Host {
+	h.mu.RLock()
+	defer h.mu.RUnlock()
+	return VerifC16Host{
+		ID: h.hostId, Peer: h.peer, Broadcast: h.broadcastAddress, Listen: h.listenAddress, RPC: h.rpcAddress,
+		Preferred: h.preferredIP, Connect: h.connectAddress, Port: h.port, DC: h.dataCenter, Rack: h.rack,
+		Tokens: h.tokens, Up: h.state == NodeUp,
+	}
+}
+
+// VerifC16NodeToNode is HostInfo.nodeToNodeAddress; VerifC16ValidPeer is isValidPeer.
+func VerifC16NodeToNode(h *HostInfo) net.IP { return h.nodeToNodeAddress() }
+func VerifC16ValidPeer(h *HostInfo) bool    { return isValidPeer(h) }
+func VerifC16InvalidConnectAddr(h *HostInfo) bool {
+	return h.invalidConnectAddr()
+}
+
+// VerifC16Update is HostInfo.update.
+func VerifC16Update(h, from *HostInfo) { h.update(from) }
+
+// VerifC16Ring wraps a ring (a fresh one, or a session's).
+type VerifC16Ring struct{ r *ring }
+
+func VerifC16NewRing() *VerifC16Ring               { return &VerifC16Ring{r: &ring{}} }
+func VerifC16SessionRing(s *Session) *VerifC16Ring { return &VerifC16Ring{r: &s.ring} }
+
+func verifC16Recover(p *string) {
+	if r := recover(); r != nil {
+		*p = fmt.Sprint(r)
+		if *p == "" {
+			*p = "panic"
+		}
+	}
+}
+
+// AddIfMissing is ring.addHostIfMissing; panicked != "" if it panicked.
+func (v *VerifC16Ring) AddIfMissing(h *HostInfo) (existing *HostInfo, ok bool, panicked string) {
+	defer verifC16Recover(&panicked)
+	existing, ok = v.r.addHostIfMissing(h)
+	return
+}
+
+// AddOrUpdate is ring.addOrUpdate.
+func (v *VerifC16Ring) AddOrUpdate(h *HostInfo) (res *HostInfo, panicked string) {
+	defer verifC16Recover(&panicked)
+	res = v.r.addOrUpdate(h)
+	return
+}
+
+func (v *VerifC16Ring) Remove(id string) bool               { return v.r.removeHost(id) }
+func (v *VerifC16Ring) GetHost(id string) *HostInfo         { return v.r.getHost(id) }
+func (v *VerifC16Ring) GetByIP(ip string) (*HostInfo, bool) { return v.r.getHostByIP(ip) }
+func (v *VerifC16Ring) AllHosts() []*HostInfo               { return v.r.allHosts() }
+func (v *VerifC16Ring) CurrentHosts() map[string]*HostInfo  { return v.r.currentHosts() }
+
+// Dump returns copies of the three indexes: hosts by id, id by address, and the ordered list.
+func (v *VerifC16Ring) Dump() (hosts map[string]*HostInfo, ipToID map[string]string, list []*HostInfo) {
+	v.r.mu.RLock()
+	defer v.r.mu.RUnlock()
+	hosts = make(map[string]*HostInfo, len(v.r.hosts))
+	for k, h := range v.r.hosts {
+		hosts[k] = h
+	}
+	ipToID = make(map[string]string, len(v.r.hostIPToUUID))
+	for k, id := range v.r.hostIPToUUID {
+		ipToID[k] = id
+	}
+	list = append([]*HostInfo(nil), v.r.hostList...)
+	return
+}
+
+// VerifC16Refresh runs one topology refresh synchronously through the session's own refresher
+// (Session.refreshRing: refreshNow on the debouncer, which calls refreshRing(hostSource)).
+func VerifC16Refresh(s *Session) (err error) { return s.refreshRing() }
+
+// VerifC16RefreshDirect calls the refresh function itself on the caller's goroutine, so that a
+// panic inside it can be observed by the caller.
+func VerifC16RefreshDirect(s *Session) (err error, panicked string) {
+	defer verifC16Recover(&panicked)
+	err = refreshRing(s.hostSource)
+	return
+}
+
+// VerifC16RefreshPending reports whether a debounced ring refresh is armed, and disarms it
+// (so that the harness, not a timer, decides when the next refresh runs).
+func VerifC16RefreshPending(s *Session) bool {
+	d := s.ringRefresher
+	d.mu.Lock()
+	defer d.mu.Unlock()
+	return d.timer.Stop()
+}
+
+// VerifC16Event is one node event as carried by an EVENT frame.
+type VerifC16Event struct {
+	Topology bool   // TOPOLOGY_CHANGE (else STATUS_CHANGE)
+	Change   string // NEW_NODE / REMOVED_NODE / MOVED_NODE / UP / DOWN
+	Host     net.IP
+	Port     int
+}
+
+// VerifC16NodeEvents hands one batch of node events to Session.handleNodeEvent on the caller's
+// goroutine (what the event debouncer's flush does with the frames collected in one window).
+func VerifC16NodeEvents(s *Session, evs []VerifC16Event) (panicked string) {
+	defer verifC16Recover(&panicked)
+	frames := make([]frame, 0, len(evs))
+	for _, e := range evs {
+		if e.Topology {
+			frames = append(frames, &topologyChangeEventFrame{change: e.Change, host: e.Host, port: e.Port})
+		} else {
+			frames = append(frames, &statusChangeEventFrame{change: e.Change, host: e.Host, port: e.Port})
+		}
+	}
+	s.handleNodeEvent(frames)
+	return
+}
+
+// VerifC16NodeUp / VerifC16NodeDown are Session.handleNodeUp / handleNodeDown.
+func VerifC16NodeUp(s *Session, ip net.IP, port int) (panicked string) {
+	defer verifC16Recover(&panicked)
+	s.handleNodeUp(ip, port)
+	return
+}
+func VerifC16NodeDown(s *Session, ip net.IP, port int) (panicked string) {
+	defer verifC16Recover(&panicked)
+	s.handleNodeDown(ip, port)
+	return
+}
+
+// VerifC16RemoveHost is Session.removeHost (policy, pool, ring).
+func VerifC16RemoveHost(s *Session, h *HostInfo) { s.removeHost(h) }
+
+// VerifC16PoolHosts lists the host ids that have a connection pool, sorted.
+func VerifC16PoolHosts(s *Session) []string {
+	s.pool.mu.RLock()
+	defer s.pool.mu.RUnlock()
+	ids := make([]string, 0, len(s.pool.hostConnPools))
+	for id := range s.pool.hostConnPools {
+		ids = append(ids, id)
+	}
+	sort.Strings(ids)
+	return ids
+}
+
+// VerifC16PoolConns is the number of open connections in the pool of host id (-1: no pool).
+func VerifC16PoolConns(s *Session, id string) int {
+	s.pool.mu.RLock()
+	p, ok := s.pool.hostConnPools[id]
+	s.pool.mu.RUnlock()
+	if !ok {
+		return -1
+	}
+	return p.Size()
+}
+
+// VerifC16PoolIdle reports whether no pool of the session is in the middle of a fill.
+func VerifC16PoolIdle(s *Session) bool {
+	s.pool.mu.RLock()
+	defer s.pool.mu.RUnlock()
+	for _, p := range s.pool.hostConnPools {
+		p.mu.RLock()
+		f := p.filling
+		p.mu.RUnlock()
+		if f {
+			return false
+		}
+	}
+	return true
+}
+
+// VerifC16EventBufferSize is the cap of the event debouncer's buffer.
+const VerifC16EventBufferSize = eventBufferSize
+
+// VerifC16SetPoolSize sets the number of connections per host that pools created from now on
+// will try to open (0: pools are created and removed as usual but never dial, so that the harness
+// decides when a host counts as connected).
+func VerifC16SetPoolSize(s *Session, n int) {
+	s.pool.mu.Lock()
+	s.pool.numConns = n
+	s.pool.mu.Unlock()
+}
+
+// VerifC16NodeConnected is Session.handleNodeConnected for the ring's host with this id
+// (what a host pool does after its first successful connection). false: no such host.
+func VerifC16NodeConnected(s *Session, id string) bool {
+	h := s.ring.getHost(id)
+	if h == nil {
+		return false
+	}
+	s.handleNodeConnected(h)
+	return true
+}
+
+// VerifC16ControlReconnect runs controlConn.reconnect on the caller's goroutine: dial a ring host
+// (the previous control host first), set up the control connection on it (system.local ->
+// ring.addOrUpdate), then refresh the ring.
+func VerifC16ControlReconnect(s *Session) { s.control.reconnect() }
